@@ -74,6 +74,36 @@ def harness(tier, seed):
         # storage type must not matter: same matrices in a wider type
         if len(samples) < 2:
             samples.append({"n": n, "lines": lines[:6], "dtype": str(inst.flows.dtype), "bounds": [lo, hi]})
+    # ---- instances built directly from narrow-dtype arrays whose flow*distance products exceed that dtype
+    for dt in (np.int8, np.uint8, np.int16, np.uint16, np.int32, np.uint32, np.int64):
+        hi = int(min(np.iinfo(dt).max, 10 ** 6))
+        for _ in range(3):
+            n = rng.randint(2, 4)
+            f = np.array([[rng.randint(hi // 2, hi) for _ in range(n)] for _ in range(n)], dtype=dt)
+            d = np.array([[rng.randint(hi // 2, hi) for _ in range(n)] for _ in range(n)], dtype=dt)
+            info = {"n": n, "input_dtype": np.dtype(dt).name, "flows": f.tolist(), "distances": d.tolist()}
+            try:
+                inst = Instance(d, f)
+            except Exception as ex:
+                viol.append(("instance/raises", info, repr(ex)))
+                continue
+            evals += 1
+            distinct.add(("narrow", np.dtype(dt).name, f.tobytes(), d.tobytes()))
+            if inst.flows.tolist() != f.tolist() or inst.distances.tolist() != d.tolist():
+                viol.append(("instance/stored-matrices-differ", info, f"stored dtype {inst.flows.dtype}"))
+                continue
+            obj = QAPObjective(inst)
+            lo, hi_ = obj.lower_bound(), obj.upper_bound()
+            for p in itertools.permutations(range(n)):
+                want = sum(int(f[i][j]) * int(d[p[i]][p[j]]) for i in range(n) for j in range(n))
+                v = int(obj.evaluate(np.array(p)))
+                evals += 1
+                if v != want:
+                    viol.append(("objective/value", {**info, "x": list(p)}, f"evaluate={v} sum={want}"))
+                    break
+                if not (lo <= v <= hi_):
+                    viol.append(("objective/bounds", {**info, "x": list(p)}, f"{v} not in [{lo}, {hi_}]"))
+                    break
     seen = set()
     viol = [v for v in viol if not (v[0] in seen or seen.add(v[0]))]
     return {"name": "qap", "evaluations": evals, "distinct_nontrivial": len(distinct),
